@@ -12,6 +12,10 @@ oracle (implementation only, no Lean):
       graph with matching state is deleted or altered, a deleted directory that Bob did not know, a source
       workspace deleted without -s / without -f although dirty, any file system or state change under
       --dry-run, a build/package workspace that still holds files of the variant that owned it before.
+      A mandatory first batch uses the project in BOTH modes (release build, develop build, edit, both again, `bob clean`
+      of each mode with/without --dry-run/-s, both builds again): after `bob clean` of any mode every workspace that belongs
+      to a package of the current recipes in EITHER mode and was up to date before is still there with its state
+      (`clean-deletes-uptodate-other-mode`), and the next `bob build`/`bob dev` re-executes nothing (`clean-forces-reexecution`).
 correspond: the same observations against the Lean model `drv_c16`: the table after every refresh, the
       by-name state after every call sequence, the base directory formatters, every `bob clean` invocation
       (printed rm lines, deleted set, remaining directory state), the PRUNE decisions of `bob dev`.
@@ -31,7 +35,9 @@ RULE = ("projects: root -> up to 6 apps -> lib/base (variants by an inherited va
         "prefix, step) pair, distinct by the table before, the visit sequence and the step's key; non-trivial if the "
         "refresh kept at least one entry and numbered at least one new key (or the by-name state was non-empty). A "
         "clean case is one real `bob clean` invocation, distinct by its options, the directory state and the package "
-        "graph; non-trivial if at least one known directory was unused or a source workspace was involved.")
+        "graph; non-trivial if at least one known directory was unused or a source workspace was involved. Mixed-mode "
+        "histories (bob build and bob dev in one project) add one case per (clean invocation, up-to-date workspace of the other "
+        "mode) and one per re-build after a clean without an edit in between.")
 ASSUMPTIONS = [
     "the traversal order of DevelopDirOracle.__touch and of collectPaths.walk is the post/pre-order over "
     "getDirectDepSteps() that the harness re-computes on the real package objects",
@@ -328,6 +334,10 @@ def _h_pick(cands, frac):
     return cands[min(len(cands) - 1, int(frac * len(cands)))]
 
 
+EXEC_LINE = re.compile(r"^\s*(?:\[[^\]]*\]\s*)?(BUILD|PACKAGE)\s")
+EXEC_PATH = re.compile(r"((?:dev|work)/\S*?/workspace)\b")
+
+
 def _helper_run(cmd, log):
     import gc
     import shutil
@@ -355,6 +365,9 @@ def _helper_run(cmd, log):
         if os.path.exists(".helper-capture"):
             os.unlink(".helper-capture")
         res["out"] = [l for l in out.splitlines() if l.startswith("rm ") or "PRUNE" in l or l.startswith("STATUS")]
+        # steps whose script was really executed (`BUILD <path>` / `PACKAGE <path>`, not `... skipped (...)`)
+        res["exec"] = [[m.group(1), w.group(1)] for l, m, w in ((l, EXEC_LINE.match(l), EXEC_PATH.search(l)) for l in out.splitlines())
+                       if m and w and "skipped" not in l]
         res["after"] = {"fs": _h_fs(), "state": _h_state(), "devdirs": _h_devdirs()}
         if res["rc"] == "ok" or op == "clean":
             mode = cmd.get("mode", "develop")
@@ -364,6 +377,14 @@ def _helper_run(cmd, log):
                     res["graph_error"] = g["child_error"]
                 else:
                     res["graph"] = g
+                if op == "clean":
+                    # the package graph of the current recipes in the OTHER mode: its workspaces are results too
+                    om = "release" if mode == "develop" else "develop"
+                    g = _h_graph(om)
+                    if "child_error" in g:
+                        res["graph_other_error"] = g["child_error"]
+                    else:
+                        res["graph_other"] = {"mode": om, "graph": g}
             res["after2"] = {"devdirs": _h_devdirs()}
     elif op == "dirty":
         st = _h_state()
@@ -719,8 +740,8 @@ def gen_real_script(r, mode, git_urls, rounds):
     from gen import c16_projects as G
     spec = G.initial(r, git_urls, small=True)
 
-    def build_op():
-        m = mode if mode != "mixed" else r.choice(["develop", "release"])
+    def build_op(m=None):
+        m = m or (mode if mode != "mixed" else r.choice(["develop", "release"]))
         if r.random() < 0.75 or not spec["apps"]:
             t = ["root"]
         else:
@@ -751,9 +772,12 @@ def gen_real_script(r, mode, git_urls, rounds):
             ops.append({"op": "clean", "args": [x for x in a if x != "--dry-run"], "mode": gm, "cmode": m})
         return ops
 
-    script = [{"op": "spec", "spec": spec}, build_op()]
     if mode == "mixed":
-        script.append(build_op())
+        # the project is used in both modes from the start
+        m1 = r.choice(["develop", "release"])
+        script = [{"op": "spec", "spec": spec}, build_op(m1), build_op("release" if m1 == "develop" else "develop")]
+    else:
+        script = [{"op": "spec", "spec": spec}, build_op()]
     for _ in range(rounds):
         scenario = r.random() < 0.5
         if scenario:
@@ -812,6 +836,54 @@ def guaranteed_scripts(r):
         spec2, k = G.edit(r, spec)
         script += [{"op": "spec", "spec": spec2}, dict(b), {"op": "clean", "args": rel + ["-s", "-v"], "mode": mode, "cmode": mode}]
         out.append(script)
+    return out
+
+
+def guaranteed_mixed_scripts(r):
+    """mandatory histories of a project that is used in BOTH modes (`bob build` below work/ and `bob dev` below dev/):
+    release build, develop build, edit, both again, then `bob clean` of each mode - with and without --dry-run / -s -
+    and both builds once more (which must find nothing to do).  Four short scripts (they run in parallel)."""
+    from gen import c16_projects as G
+
+    def B(m):
+        return {"op": "dev", "args": ["root"], "mode": "develop"} if m == "develop" else \
+            {"op": "build", "args": ["--no-sandbox", "root"], "mode": "release"}
+
+    def C(m, *a):
+        return {"op": "clean", "args": (["--release"] if m == "release" else []) + list(a), "mode": m, "cmode": m}
+
+    def project():
+        spec = G.initial(r, None, small=True)
+        spec["root_extra"] = spec["root_extra"][:1]
+        for a in spec["apps"].values():
+            a["deps"] = a["deps"][:1]
+            a["lib"] = True
+        return spec
+
+    def edited(spec):
+        # new variants of root and of one app (release: new directories, the old ones are garbage; develop: new
+        # numbered directories or re-used ones) plus one random edit
+        s2 = json.loads(json.dumps(spec))
+        s2["tags"]["root"] = r.choice([t for t in G.TAGS if t != s2["tags"]["root"]])
+        a = s2["apps"][r.choice(sorted(s2["apps"]))]
+        a["tag"] = r.choice([t for t in G.TAGS if t != a["tag"]])
+        a["v"] = r.choice([v for v in G.VALUES if v != a["v"]])
+        s3, _ = G.edit(r, s2)
+        return s3
+
+    out = []
+    for cm in ("develop", "release"):
+        om = "release" if cm == "develop" else "develop"
+        first, second = (om, cm) if r.random() < 0.5 else (cm, om)
+        # (1) both modes freshly built, clean of one mode (dry run, then for real), both builds again
+        spec = project()
+        out.append([{"op": "spec", "spec": spec}, B(first), B(second),
+                    C(cm, "--dry-run", *r.choice([[], ["-s"], ["-v"]])), C(cm, *r.choice([["-v"], ["-s", "-v"], []])),
+                    B(om), B(cm)])
+        # (2) both built, edit, both again (garbage in both modes), clean of one mode with -s, both builds again
+        spec = project()
+        out.append([{"op": "spec", "spec": spec}, B(first), B(second), {"op": "spec", "spec": edited(spec)}, B(second), B(first),
+                    C(cm, *r.choice([["-s"], ["-s", "-v"], ["-s", "-f"], ["-v"]])), B(om)])
     return out
 
 
@@ -904,7 +976,9 @@ def check_real(ctx, script, results, case):
         ctx.skip("real run: " + results[:200])
         return cleans
     cmds = [s for s in script]
-    fresh = None           # mode of the last full build that was not followed by an edit / user interference
+    fresh = set()          # modes with a complete build that was not followed by an edit / user interference
+    cleaned = []           # the `bob clean` invocations since then (index, args)
+    uptodate = {}          # mode -> workspaces (path -> kind) of the current graph right after that complete build
     ri = 0
     for idx, s in enumerate(cmds):
         if ri >= len(results):
@@ -916,7 +990,9 @@ def check_real(ctx, script, results, case):
             ctx.skip("real run: helper error " + res["helper_error"][:200])
             break
         if s["op"] in ("spec", "rmdir", "dirty"):
-            fresh = None
+            fresh.clear()
+            uptodate.clear()
+            del cleaned[:]
             continue
         if s["op"] in ("dev", "build"):
             ctx.count("real", s["op"] + ":" + res["rc"].split(":")[0])
@@ -946,8 +1022,25 @@ def check_real(ctx, script, results, case):
                                           % (st["path"], p["name"], lab, have, st["marker"]), here, "handover-not-pruned")
             check_graph_paths(ctx, g, s["mode"], here)
             cleans.append(build_event(res, here))
+            if s["mode"] in fresh:
+                # nothing was edited since the last complete build of this mode: only a `bob clean` in between (of
+                # either mode) can be the reason why a step has to run again - an up-to-date result was lost
+                ctx.case(("rebuild", s["op"], tuple(s["args"]), tuple(tuple(a) for _, a in cleaned),
+                          json.dumps(g, sort_keys=True)), nontrivial=bool(cleaned))
+                ctx.count("rebuild_after_clean", "%s:%s" % (s["mode"], "re-executed" if res.get("exec") else "nothing-to-do")
+                          if cleaned else s["mode"] + ":no-clean-in-between")
+                lost = [e for e in res.get("exec", []) if e[1] in uptodate.get(s["mode"], {})]
+                if cleaned and lost:
+                    ctx.violation("bob %s %s re-executes %s although nothing was edited since the last complete %s build: `bob clean %s` "
+                                  "in between lost these up-to-date results"
+                                  % (s["op"], " ".join(s["args"]), ", ".join("%s %s" % (a, p0) for a, p0 in lost[:6]), s["mode"],
+                                     "` / `bob clean ".join(" ".join(a) for _, a in cleaned)),
+                                  here, "clean-forces-reexecution")
             if s["args"][-1] == "root":
-                fresh = s["mode"]
+                fresh.add(s["mode"])
+                fs = res["after"]["fs"]
+                uptodate[s["mode"]] = {p["steps"][lab]["path"]: lab for p in g["pkgs"] for lab in ("build", "dist")
+                                       if p["steps"][lab]["valid"] and p["steps"][lab]["path"] in fs}
             continue
         # ---- clean
         args, cmode = s["args"], s["cmode"]
@@ -978,6 +1071,35 @@ def check_real(ctx, script, results, case):
             rel = {os.path.join(d0, "workspace") for k, n, d0, issrc in bst["byNameDirs"] if n is None}
             known = {d0[0]: d0[1] for d0 in bst["dirStates"] if d0[0] not in rel}
         live = live_paths(g, bst["dirStates"]) if cmode != "attic" else {}
+        ast_d = {d0[0]: d0 for d0 in ast["dirStates"]}
+        bst_d = {d0[0]: d0 for d0 in bst["dirStates"]}
+        # the property for BOTH modes: a project is used with `bob dev` and `bob build`; whatever mode `bob clean` works
+        # in, every workspace that belongs to a package of the current recipes in either mode and was up to date before
+        # (exists, stored state matches the step) must still be there, unaltered, with its state
+        others = []
+        if cmode == "attic":
+            others.append((s["mode"], g))
+        og = res.get("graph_other")
+        if og is None:
+            ctx.count("other_mode_graph", "unavailable")
+        else:
+            others.append((og["mode"], og["graph"]))
+        for om, ogr in others:
+            olive = live_paths(ogr, bst["dirStates"])
+            ok_before = sorted(p for p in olive if p in bfs and p in bst_d and p not in live)
+            ctx.count("other_mode_uptodate", "%s-clean:%s-results=%d" % (cmode, om, min(len(ok_before), 8)))
+            for p in ok_before:
+                ctx.case(("other-mode", cmode, tuple(args), om, p, bst_d[p][5]), nontrivial=True)
+                gone = p not in afs
+                if gone or _subtree(bfs, p) != _subtree(afs, p) or bst_d.get(p) != ast_d.get(p) \
+                        or any(l == "rm " + p for l in res["out"]):
+                    owner = sorted(q["name"] for q in ogr["pkgs"] if any(q["steps"][l]["path"] == p for l in ("src", "build", "dist")))
+                    ctx.violation("bob clean %s (%s mode) %s %s, the up-to-date %s workspace of %s of the current recipes in %s mode "
+                                  "(stored state matched before; state afterwards: %s)"
+                                  % (" ".join(args), cmode,
+                                     "deleted" if gone else "lists for removal" if "--dry-run" in args else "altered", p, olive[p],
+                                     "/".join(owner), om, "kept" if bst_d.get(p) == ast_d.get(p) else "dropped"),
+                                  here, "clean-deletes-uptodate-other-mode")
         for d0 in [l[3:] for l in res["out"] if l.startswith("rm ")]:
             if d0 in live and d0 not in roots:
                 ctx.violation("bob clean %s lists %s for removal which belongs to the current package graph (%s, state matches)"
@@ -998,7 +1120,7 @@ def check_real(ctx, script, results, case):
                     ctx.violation("bob clean %s removed the source workspace %s with local changes without -f" % (args, d0), here, "clean-removed-dirty-source")
         if changed:
             ctx.violation("bob clean %s modified files: %r" % (args, changed[:5]), here, "clean-modified-files")
-        if fresh is not None and fresh == cmode:
+        if cmode in fresh:
             # directly after a complete build every workspace of the current graph is an up-to-date result
             for p in g["pkgs"]:
                 for lab in ("src", "build", "dist"):
@@ -1008,8 +1130,6 @@ def check_real(ctx, script, results, case):
                         if _subtree(bfs, st["path"]) != _subtree(afs, st["path"]):
                             ctx.violation("bob clean %s removed/altered %s, the up-to-date %s result of %s right after a complete build"
                                           % (args, st["path"], lab, p["name"]), here, "clean-removed-fresh-result")
-        ast_d = {d0[0]: d0 for d0 in ast["dirStates"]}
-        bst_d = {d0[0]: d0 for d0 in bst["dirStates"]}
         for p, kind in live.items():
             if p in bfs:
                 if _subtree(bfs, p) != _subtree(afs, p):
@@ -1020,6 +1140,8 @@ def check_real(ctx, script, results, case):
         ctx.case(("clean", tuple(args), bst["pickle"], json.dumps(g, sort_keys=True), tuple(sorted(bfs))), nontrivial=nontrivial,
                  sample={"clean": args, "removed": roots, "known": len(known), "live": len(live)})
         ctx.count("clean_removed", min(len(roots), 5))
+        if "--dry-run" not in args:
+            cleaned.append((idx, list(args)))
         cleans.append(clean_event(res, args, cmode, here))
     return cleans
 
@@ -1118,14 +1240,14 @@ def oracle(ctx):
     n_real = ctx.scale(48, 480)
     for h in range(n_real):
         r = ctx.subrng("real", h)
-        mode = r.choice(["develop", "develop", "develop", "release", "release", "mixed"])
+        mode = r.choice(["develop", "develop", "release", "release", "mixed", "mixed"])
         script = gen_real_script(r, mode, git_urls if (git_urls and r.random() < 0.8) else None, ctx.scale(3, 6))
         scripts.append(script)
         jobs.append((os.path.join(ctx.tmp, "real%d" % h), script, ctx.repo, None))
     c["cleans"] = []
     reserve = total * 0.18
     # a guaranteed minimum of real dev/build + clean histories, whatever the load of the machine
-    gs = guaranteed_scripts(ctx.subrng("guaranteed"))
+    gs = guaranteed_mixed_scripts(ctx.subrng("guaranteed-mixed")) + guaranteed_scripts(ctx.subrng("guaranteed"))
     gjobs = [(os.path.join(ctx.tmp, "guar%d" % k), sc, ctx.repo, max(420.0, ctx.time_left())) for k, sc in enumerate(gs)]
     t = time.time()
     for sc, res in zip(gs, ctx.parallel(run_real, gjobs, workers=len(gjobs))):
